@@ -752,6 +752,82 @@ Proof.
   - reflexivity.
 Qed.
 
+Lemma step_read_est P t x k fr s : rtree0 (ReadVar x k) ->
+  ecfg (step P (mkC (MRun t (ReadVar x k)) fr s)) = ecfg (mkC (MRun t (ReadVar x k)) fr s).
+Proof.
+  intros Hq. cbn [step c_mode c_frames c_st]. unfold ecfg. cbn [c_mode c_frames c_st emode].
+  rewrite (rtree0_read_const x k _ Hq). reflexivity.
+Qed.
+
+Lemma is_final_emode m : is_final (emode m) = is_final m. Proof. destruct m; reflexivity. Qed.
+Lemma is_unwind_emode m : is_unwind (emode m) = is_unwind m. Proof. destruct m; reflexivity. Qed.
+
+(* ------------------------------------------------------------------ the stuttering simulation of whole runs *)
+Lemma run_est P : forall n c, RHc c ->
+  exists m, (m <= n)%nat /\ ecfg (run P n c) = run P m (ecfg c) /\
+    forall k, (k <= m)%nat -> exists j, (j <= n)%nat /\ run P k (ecfg c) = ecfg (run P j c).
+Proof.
+  induction n as [|n IH]; intros c Hc.
+  - exists O. split; [lia|]. split; [reflexivity|]. intros k Hk. exists O. split; [lia|].
+    replace k with O by lia. reflexivity.
+  - rewrite run_S. destruct (is_final (c_mode c)) eqn:Hf.
+    + exists O. split; [lia|]. split; [reflexivity|]. intros k Hk. exists O. split; [lia|].
+      replace k with O by lia. reflexivity.
+    + destruct (IH (step P c) (rh_step P c Hc)) as (m & Hm & E & Hpre).
+      destruct (is_readm (c_mode c)) eqn:Hr.
+      * (* a read: the erased run does not move *)
+        assert (Es : ecfg (step P c) = ecfg c).
+        { destruct c as [md fr s]. cbn [c_mode] in Hr. destruct md as [h| | | |t|t p| |o|e|o|]; try discriminate Hr.
+          destruct p; try discriminate Hr. destruct Hc as (_ & _ & Hq). cbn [c_mode] in Hq. apply step_read_est. exact Hq. }
+        rewrite Es in E, Hpre. exists m. split; [lia|]. split; [exact E|].
+        intros k Hk. destruct (Hpre k Hk) as (j & Hj & Ej). exists (S j). split; [lia|].
+        rewrite run_S, Hf. exact Ej.
+      * rewrite <- (step_est P c Hr) in E, Hpre.
+        assert (Hfe : is_final (c_mode (ecfg c)) = false) by (cbn [ecfg c_mode]; rewrite is_final_emode; exact Hf).
+        exists (S m). split; [lia|]. split; [rewrite run_S, Hfe; exact E|].
+        intros k Hk. destruct k as [|k]; [exists O; split; [lia|reflexivity]|].
+        destruct (Hpre k ltac:(lia)) as (j & Hj & Ej). exists (S j). split; [lia|].
+        rewrite run_S, Hfe, run_S, Hf. exact Ej.
+Qed.
+
+Lemma start_est P p :
+  ecfg (start (fst (create [] (FTask p) (st0 P))) (snd (create [] (FTask p) (st0 P)))) =
+  start (fst (create [] (FTask (erase p)) (st0 P))) (snd (create [] (FTask (erase p)) (st0 P))).
+Proof. reflexivity. Qed.
+
+(* the run of p, erased, is a prefix-indexed run of [erase p]; no unwinding carries over *)
+Lemma sim_run P p n : rtree0 p ->
+  let c0 := start (fst (create [] (FTask p) (st0 P))) (snd (create [] (FTask p) (st0 P))) in
+  let d0 := start (fst (create [] (FTask (erase p)) (st0 P))) (snd (create [] (FTask (erase p)) (st0 P))) in
+  no_unwind P n c0 ->
+  exists m, (m <= n)%nat /\ ecfg (run P n c0) = run P m d0 /\ no_unwind P m d0.
+Proof.
+  intros Hp c0 d0 Hn. destruct (run_est P n c0 (RHc_start P p Hp)) as (m & Hm & E & Hpre).
+  change (ecfg c0) with d0 in E, Hpre. exists m. split; [exact Hm|]. split; [exact E|].
+  intros k Hk. destruct (Hpre k Hk) as (j & Hj & Ej). rewrite Ej. cbn [ecfg c_mode]. rewrite is_unwind_emode.
+  apply Hn. exact Hj.
+Qed.
+
+(* ------------------------------------------------------------------ what est does not touch *)
+Lemma task_layers_est s t : task_layers (est s) t = task_layers s t.
+Proof. unfold task_layers. rewrite get_est. destruct (get t s) as [[[o|] [tk| | |]]|]; reflexivity. Qed.
+Lemma lower_est s ts : lower (est s) ts = lower s ts.
+Proof. unfold lower. apply flat_map_ext. intros t. apply task_layers_est. Qed.
+Lemma layers_est s : layers (est s) = layers s.
+Proof. unfold layers. change (tasks (est s)) with (tasks s). apply flat_map_ext. intros t. apply task_layers_est. Qed.
+Lemma get_est_inv t s o tk' : get t (est s) = Some (mkFut o (KTask tk')) ->
+  exists tk, get t s = Some (mkFut o (KTask tk)) /\ tk' = etask tk.
+Proof.
+  rewrite get_est. destruct (get t s) as [[o0 [tk| | |]]|]; cbn; intros E; inversion E. exists tk. split; reflexivity.
+Qed.
+
+Lemma run_snoc P : forall n c, run P (S n) c = if is_final (c_mode (run P n c)) then run P n c else step P (run P n c).
+Proof.
+  induction n as [|n IH]; intros c.
+  - rewrite run_S. cbn [run]. destruct (is_final (c_mode c)); reflexivity.
+  - rewrite run_S. rewrite (run_S P n c). destruct (is_final (c_mode c)) eqn:Hf; [rewrite Hf; reflexivity|]. apply IH.
+Qed.
+
 Lemma erase_covered p : rtree0 p -> wnr [] p -> tree (erase p) /\ wn [] (erase p).
 Proof. intros H1 H2. split; [apply tree_erase; exact H1|apply wn_erase; exact H2]. Qed.
 
